@@ -35,6 +35,9 @@ def prog_solve(env, case):
     tag = "C15:solve:%s:d%d%s" % (backend, d, ":constructor" if case.get('direct') else "")
     spec = dict(fclass='ssc', steps=['grad'], cons=[], lmis=[], metrics=1, partition=d, backend=backend,
                 partition_direct=bool(case.get('direct')))
+    if case.get('second'):
+        spec['second_partition'] = case['second']      # a second, unrelated partition that decomposes the starting point
+        tag += ":second%d" % case['second']
     if env.sym:
         CvxStub(env).install()
         MosekStub(env).install()
@@ -52,6 +55,16 @@ def prog_solve(env, case):
     else:
         rec = c05.rows_from_real_cvxpy(w)
     parts = [m.partition] + ([m.partition2] if getattr(m, 'partition2', None) is not None else [])
+    if len(parts) == 2:
+        # two declared partitions are two coordinate structures: they do not share their blocks
+        x0 = m.points['x0']
+        shared = parts[0] is parts[1] or (x0 in parts[0].blocks_dict and x0 in parts[1].blocks_dict and
+                                          any(a is b for a, b in zip(parts[0].blocks_dict[x0], parts[1].blocks_dict[x0])))
+        env.check(not shared, "two separately declared partitions share their blocks (the same partition object / the same "
+                  "block points were returned): the decompositions of unrelated partitions are tied together",
+                  signature=tag + ":partitions-aliased")
+        if parts[0] is parts[1]:
+            parts = parts[:1]
     # the model's other rows (class constraints, initial condition, metric): C05's expectation without the partitions
     registry = BlockPartition.list_of_partitions
     BlockPartition.list_of_partitions = []
@@ -282,6 +295,9 @@ def cases(tier):
             for direct in (False, True):
                 cs.append(dict(id="solve-%s-d%d%s" % (be, d, "-constructor" if direct else ""), kind='solve', backend=be, d=d,
                                direct=direct, input_zero_tests='generic', output_branches='first'))
+        for second in ((2,) if tier == 'quick' else (2, 3)):
+            cs.append(dict(id="solve-%s-d2-second%d" % (be, second), kind='solve', backend=be, d=2, second=second,
+                           input_zero_tests='generic', output_branches='first'))
     for d in ((1, 2, 3) if tier == 'quick' else (1, 2, 3, 4)):
         npts = {1: 3, 2: 3, 3: 2, 4: 2}[d] if tier == 'quick' else {1: 4, 2: 4, 3: 3, 4: 2}[d]
         for first in range(5):
